@@ -65,6 +65,22 @@ def _coerce(a, b):
     raise TypeError((a.sort(), b.sort()))
 
 
+class DType:
+    """dtype class (integer / bool / inexact); the width is not modelled"""
+
+    def __init__(self, kind):
+        self.kind = kind
+
+    def __eq__(self, o):
+        return isinstance(o, DType) and o.kind == self.kind
+
+    def __hash__(self):
+        return hash(self.kind)
+
+    def __repr__(self):
+        return f"dtype({self.kind})"
+
+
 class SV:
     """Symbolic scalar / generic tensor element."""
 
@@ -85,6 +101,11 @@ class SV:
 
     def is_int(self):
         return self.e.sort() == I
+
+    @property
+    def dtype(self):
+        """JAX dtype class of the value: the z3 sort carries it (Int = integer array, Bool = bool array, Real = inexact array)"""
+        return DType("int" if self.e.sort() == I else "bool" if self.e.sort() == B else "float")
 
     def is_bool(self):
         return self.e.sort() == B
